@@ -4,7 +4,7 @@
 EXTENDS FitRetry, Json
 CONSTANTS Lams, Export, MaxEst, MaxAlpha
 
-AlphaSeqs == {<<700000>>, <<700000, 900000>>, <<700000, 900000, 800000>>}
+AlphaSeqs == {<<700000>>, <<700000, 950000>>, <<700000, 950000, 800000>>}   \* 0.95: bound quantiles with a third decimal
 Scenarios ==
   { s \in [estimator : {"nonparametric", "gaussian"}, lam : Lams, nEst : 1..MaxEst,
            alphas : {a \in AlphaSeqs : Len(a) <= MaxAlpha}, fpos : 0..(MaxEst * (1 + 2 * MaxAlpha)),
